@@ -32,6 +32,7 @@ RULE = ('random literal values (scalars, str/bytes with prefixes/escapes/adjacen
         'between other statements, given as str / list of str / text or binary file object / file on disk / include; oracle = '
         'ast.literal_eval + typed equality for in-grammar text, SyntaxError|TokenError + no binding for near-misses '
         '(parse_value: only the value of a literal the text starts with may ever be returned). '
+        'One case in four starts from a configuration in which the parameter already holds a value that compares equal to the literal\'s but has another type. '
         'distinct = distinct (entry path, classifier class, set of layout features | mutation operator, value-kind set)')
 TIERS = {
     'quick': {'workers': 8, 'cases': 10000, 'timeout': 600},
